@@ -24,6 +24,9 @@ fn count_needed_vkeys(tx_builder: &TransactionBuilder) -> usize {
     if let Some(voting_builder) = &tx_builder.voting_procedures {
         input_hashes.extend_move(voting_builder.get_required_signers());
     }
+    if let Some(voting_proposal_builder) = &tx_builder.voting_proposals {
+        input_hashes.extend_move(voting_proposal_builder.get_required_signers());
+    }
     input_hashes.len()
 }
 
